@@ -13,11 +13,35 @@ pub fn def() -> PropDef {
     gen,
     check,
     panic_policy: PanicPolicy::Violation,
-    rule: "random SourceMap values whose strings mix ASCII, quotes, backslashes, C0 controls, DEL, U+2028/2029, 2-4 byte characters and astral characters; optional file / sourceRoot / debugId present or absent; sourcesContent absent, all empty, or partly empty; plus hand-spelled documents (via an independent serialiser) with null entries, missing arrays, shuffled keys, \\u escapes and surrogate pairs; to_json / to_writer output is parsed by serde_json (independent of simd-json) and by from_json / from_slice / from_reader; non-trivial = the value has a string needing an escape or a multi-byte character and >= 1 optional field present; distinct = case fingerprint",
+    rule: "random SourceMap values whose strings mix ASCII, quotes, backslashes, C0 controls, DEL, U+2028/2029, 2-4 byte characters and astral characters; optional file / sourceRoot / debugId present or absent; sourcesContent absent, all empty, or partly empty; to_writer also into writers that take 1-7 / 5 (with interrupts) / 4096 bytes per call; plus hand-spelled documents (via an independent serialiser) with null entries, missing arrays, shuffled keys, \\u escapes and surrogate pairs; to_json / to_writer output is parsed by serde_json (independent of simd-json) and by from_json / from_slice / from_reader; non-trivial = the value has a string needing an escape or a multi-byte character and >= 1 optional field present; distinct = case fingerprint",
     cases: |t| match t {
       Tier::Quick => 150_000,
       Tier::Thorough => 2_000_000,
     },
+  }
+}
+
+/// Accepts at most `limit` bytes per `write` call; with `interrupt` every
+/// third call fails with `ErrorKind::Interrupted` (which `write_all` retries).
+struct ShortWriter {
+  out: Vec<u8>,
+  limit: usize,
+  interrupt: bool,
+  calls: u64,
+}
+
+impl std::io::Write for ShortWriter {
+  fn write(&mut self, buf: &[u8]) -> std::io::Result<usize> {
+    self.calls += 1;
+    if self.interrupt && self.calls % 3 == 0 {
+      return Err(std::io::Error::new(std::io::ErrorKind::Interrupted, "interrupted"));
+    }
+    let n = buf.len().min(self.limit);
+    self.out.extend_from_slice(&buf[..n]);
+    Ok(n)
+  }
+  fn flush(&mut self) -> std::io::Result<()> {
+    Ok(())
   }
 }
 
@@ -256,6 +280,24 @@ fn check_value(v: &MapVal, obs: &mut Obs) {
       }
     }
     Err(e) => obs.fail("to_writer_error", format!("{e}")),
+  }
+  // a writer that takes only a few bytes per call (pipe, socket, fixed
+  // buffer) and one that is interrupted now and then: both legal `io::Write`
+  // behaviours, the document must arrive complete all the same
+  for (limit, interrupt) in [(1 + json.len() % 7, false), (5, true), (4096, false)] {
+    let mut sw = ShortWriter { out: Vec::new(), limit, interrupt, calls: 0 };
+    match m.clone().to_writer(&mut sw) {
+      Ok(()) => {
+        obs.count("short_writer_calls", sw.calls);
+        if sw.out != json.as_bytes() {
+          obs.fail(
+            "to_writer_short_writes",
+            format!("a writer taking <= {limit} bytes per call (interrupts: {interrupt}) received {} of {} bytes: {:?}", sw.out.len(), json.len(), String::from_utf8_lossy(&sw.out)),
+          );
+        }
+      }
+      Err(e) => obs.fail("to_writer_error", format!("short writer: {e}")),
+    }
   }
   // independent parser
   match serde_json::from_str::<Value>(&json) {
